@@ -453,6 +453,19 @@ INIT_FORMS = {
         "(IMarkingDefinition V20)",
 }
 
+# v20 MarkingDefinition with the clock default kept at millisecond precision too (fix 32a0bd4): same form,
+# the difference is detected at run time (variant vr_md20_default_ms)
+for _src, _term in list(INIT_FORMS.items()):
+    if _term == "(IMarkingDefinition V20)":
+        _fixed = _src.replace("    if 'created' in kwargs:\n        if _should_set_millisecond(kwargs['created'], marking_type):\n"
+                              "            self._properties = copy.deepcopy(self._properties)\n"
+                              "            self._properties.update([('created', TimestampProperty(default=lambda: NOW, precision='millisecond'))])\n",
+                              "    if 'created' not in kwargs or _should_set_millisecond(kwargs['created'], marking_type):\n"
+                              "        self._properties = copy.deepcopy(self._properties)\n"
+                              "        self._properties.update([('created', TimestampProperty(default=lambda: NOW, precision='millisecond'))])\n")
+        assert _fixed != _src
+        INIT_FORMS[_fixed] = _term
+
 # the same three forms with `x is not None and kwargs.get('x') is None` in place of the truthiness tests
 # (proposed fix C03-positional-argument-falsy-value-dropped); which one the code matches is detected at run
 # time (variant vr_positional_none)
